@@ -1,23 +1,116 @@
-"""C16: world-harness check (see props/worldcommon.py and DESIGN.md section 4 C16)."""
-import os
+"""C16: error responses never reflect request data unescaped.
+
+Two sets of cases, merged into one verdict (props/subcheck.py):
+  * the world check (props/worldcommon.py, profile C16): marker payloads in every
+    client-controlled field on every error path, flag 1 of the harness, body kinds against
+    Model/Middleware.v;
+  * the escaping sweep (harness/zz_vf_escape_test.go): messages handed to sendErrorResponse;
+    Go's html.EscapeString and the <p> content actually served are compared byte for byte with
+    Model/Html.html_escape evaluated inside Coq (Corr/HtmlCorr.v), and the monitor is applied to
+    the served fragment (no markup byte, every & an entity, decodes to the message; JSON variant
+    parses and carries the message as a string).
+Theorems: Properties/C16.v."""
+import binascii, os
 import vflib as L
 from props.worldcommon import WorldSpec
+from props import subcheck
 
 
-class C16(WorldSpec):
+def hexbytes(h):
+    return "[" + ";".join(str(b) for b in binascii.unhexlify(h or "")) + "]"
+
+
+class EscapeSweep(subcheck.Sweep):
+    name = "escape"
+    harness_test = "TestVF_Escape"
+    header = "From VF Require Import Base.Prelude Model.Html Corr.HtmlCorr.\nOpen Scope N_scope.\n"
+    footer = ("Definition mism := Eval vm_compute in eids_where emismatch cases.\nPrint mism.\n"
+              "Definition viol := Eval vm_compute in eids_where violates_c16e cases.\nPrint viol.\n")
+    shards = 8
+
+    def env(self, tier, attempt):
+        n = 700 if tier == "quick" else 6000
+        if attempt:
+            n *= 5
+        return {"VERIF_N": n, "VERIF_SEED": L.seed() + 7919 * attempt}
+
+    def to_gallina(self, c):
+        return "(mkECase %d %s %s %s %s %s %s)" % (
+            c["id"], hexbytes(c["msg_hex"]), hexbytes(c.get("go_hex")), hexbytes(c.get("page_hex")),
+            L.coq_bool(c.get("shape")), L.coq_bool(c.get("ctype")), L.coq_bool(c.get("json_ok")))
+
+    def inputs(self, c):
+        return {"id": c["id"], "kind": c["kind"], "msg_hex": c["msg_hex"], "status": c["status"]}
+
+    def nontrivial(self, c):
+        return any(b in b"<>\"'&" for b in binascii.unhexlify(c["msg_hex"]))
+
+    def sample(self, c):
+        s = dict(c)
+        for k in ("msg_hex", "go_hex", "page_hex", "json_body_hex"):
+            if k in s and len(s[k]) > 240:
+                s[k] = s[k][:240] + "..."
+        try:
+            s["msg_text"] = binascii.unhexlify(c["msg_hex"]).decode("utf-8", "replace")[:120]
+        except Exception:
+            pass
+        return s
+
+    def histogram(self, cases):
+        h = {"kinds": {}, "length_buckets": {}, "with_markup": 0, "invalid_utf8": 0, "statuses": {}}
+        for c in cases:
+            h["kinds"][c["kind"]] = h["kinds"].get(c["kind"], 0) + 1
+            b = binascii.unhexlify(c["msg_hex"])
+            n = len(b)
+            k = "0" if n == 0 else "1" if n == 1 else "<=20" if n <= 20 else "<=60" if n <= 60 else "<=500" if n <= 500 else ">500"
+            h["length_buckets"][k] = h["length_buckets"].get(k, 0) + 1
+            if any(x in b"<>\"'&" for x in b):
+                h["with_markup"] += 1
+            try:
+                b.decode("utf-8")
+            except UnicodeDecodeError:
+                h["invalid_utf8"] += 1
+            h["statuses"][str(c["status"])] = h["statuses"].get(str(c["status"]), 0) + 1
+        return h
+
+    def describe(self):
+        return ("messages handed to sendErrorResponse (HTML client and JSON client): corpus, each of the 256 byte values, "
+                "all bytes in one string, long strings, then random strings from one PRNG (VERIF_SEED) of four kinds "
+                "(ASCII dense in markup, arbitrary bytes, invalid UTF-8 with markup, entity fragments); "
+                "non-trivial = contains one of < > \" ' &; distinct = distinct (message, status)")
+
+
+class C16(subcheck.WithSweeps, WorldSpec):
     pid = "C16"
     profile = "C16"
     monitor = "violates_c16"
     n_quick = 120
     n_thorough = 120 * 25
-    obligations = ['C16_step', 'C16_escape_safe', 'C16_nonvacuous']
+    sweeps = [EscapeSweep()]
+    obligations = ["C16_escape_safe", "C16_unescape_escape", "C16_page", "C16_step", "C16_nonvacuous"]
+    coq_targets = ["theories/Spec/WorldSpec.vo", "theories/Corr/HtmlCorr.vo", "theories/Properties/C16.vo"]
+    assumptions = [
+        "a browser gives a meaning, inside element content, only to the bytes < > \" ' and to & (entity start): "
+        "the theorems are about exactly these bytes (Model/Html.markup_byte, amps_ok)",
+        "the HTML error page is prefix ++ escaped message ++ suffix with a request-independent prefix and suffix: "
+        "checked on every sweep case against the page produced for the empty message",
+        "JSON well-formedness is judged by Go's encoding/json decoder inside the harness (parse, error_description is a "
+        "string equal to the message with invalid UTF-8 replaced by U+FFFD); it is not modelled in Coq",
+        "which error site produces which body kind is Model/Middleware.v, tied to the code by the world correspondence",
+    ]
+    trusted_base = [
+        "Model/Html.v is a hand transcription of html.EscapeString (Go standard library) and of the frame of the error page in "
+        "main.go sendErrorResponse; the tie is the byte-for-byte comparison, inside Coq, of html_escape with both "
+        "html.EscapeString and the served <p> content on every sweep case",
+        "Model/Middleware.v is a hand transcription of main.go; the tie is the world correspondence (Corr/WorldCorr.v)",
+    ]
 
-    @property
-    def coq_targets(self):
-        t = ["theories/Spec/WorldSpec.vo"]
-        if os.path.exists(os.path.join(L.COQ, "theories/Properties/C16.v")):
-            t.append("theories/Properties/C16.vo")
-        return t
+    def describe_rule(self):
+        return WorldSpec.describe_rule(self) + "; PLUS the escaping sweep: " + self.sweeps[0].describe()
 
 
 SPEC = C16()
+
+
+def main(argv):
+    return subcheck.main(SPEC, argv)
